@@ -71,14 +71,14 @@ HARNESSES = [
        bounds={'threads': 3, 'free_rounds': '2 quick / 3 thorough', 'forced_rounds': 2, 'spin_unroll': 1, 'low_token': '2^64-1; thorough also 5', 'grow': 'cut'}),
   dict(name='stage', unit='stage', harness='h_stage.c', cbmc=['--unwind', '40', '--object-bits', '12'],
        scenarios_quick=stage(3, 2, 2, Q3) + stage(2, 3, 2) + stage(1, 3, 2) + stage(3, 3, 1, [(1, 1, 1), (2, 3, 1), (1, 2, 3)]),
-       scenarios_thorough=stage(3, 3, 2) + stage(2, 4, 3) + stage(2, 3, 1) + stage(1, 4, 3) + stage(4, 2, 2, [(2, 1, 2, 1), (1, 1, 3, 1), (1, 2, 1, 3), (3, 1, 1, 2), (2, 3, 2, 1)]),
+       scenarios_thorough=stage(3, 3, 2) + [sc for sc in stage(2, 4, 3) if (sc['M0'], sc['M1']) != (2, 2)] + stage(2, 3, 3, [(2, 2)]) + stage(2, 3, 1) + stage(1, 4, 3) + stage(4, 2, 2, [(2, 1, 2, 1), (1, 1, 3, 1), (1, 2, 1, 3), (3, 1, 1, 2), (2, 3, 2, 1)]),
        timeout=900, mem_gb=12, thorough_override=dict(timeout=3600, mem_gb=20),
        desc='real pipeline/add_filter/stage_task::execute_filter/try_spawn_stage_task/spawn_stage_task/~stage_task + token rings, run as a task bag: '
             'the solver picks which spawned (or bypassed) task executes next, every order of one configuration in one query. live items <= '
             'max_number_of_live_tokens and idle input_tokens + live <= limit at every task boundary; every item through every filter exactly once '
             'in filter order; all serial_in_order filters see one common order; never two runnable tasks at one serial filter; wait_context '
             'reaches zero exactly once, only with empty bag, after end of input and after every item left the last filter; no task leaked/freed twice',
-       bounds={'filters': 'quick 1-3 (all 3^NF mode combinations); thorough also 4 filters (5 combinations)', 'items': 'quick 2 (3 filters) / 3 (1-2 filters); thorough 3-4',
+       bounds={'filters': 'quick 1-3 (all 3^NF mode combinations); thorough also 4 filters (5 combinations)', 'items': 'quick 2 (3 filters) / 3 (1-2 filters); thorough 3-4 (parallel+parallel with limit 3: 3 items, the 4-item tree exceeds cbmc object limits)',
                'max_number_of_live_tokens': 'quick 1-2; thorough 1-3', 'granularity': 'tasks are atomic (overlap of task bodies is covered for the ring by tokenbuf_mt*)',
                'filter_may_emit_null / thread-local end_of_input': 'not driven'}),
 ]
